@@ -1,6 +1,6 @@
 #!/usr/bin/env bash
 # C15 thorough tier: libFuzzer campaign on the SSE chunking target.
-# usage: fuzz_sse.sh <seconds>      exit 1 + "VIOLATION property=C15 replay=<artifact>" on a crash, else 0
+# usage: fuzz_sse.sh <seconds>      exit 1 + "VIOLATION property=C15 replay=<artifact>" on a crash (oracle assertion), exit 2 on timeout/oom, else 0
 set -u
 SECS="${1:-60}"
 ROOT="${VERIF_ROOT:-/verif}"
@@ -31,11 +31,18 @@ STAMP="$(mktemp)"
 RC=$?
 grep -E "stat::|Done [0-9]+ runs|panicked|^C15 " "$TDIR.run.log" | head -12
 FOUND=0
-for f in $(find "$ART" -type f \( -name 'crash-*' -o -name 'timeout-*' -o -name 'oom-*' -o -name 'leak-*' \) -newer "$STAMP" 2>/dev/null); do
+SLOW=0
+for f in $(find "$ART" -type f -name 'crash-*' -newer "$STAMP" 2>/dev/null); do
   echo "VIOLATION property=C15 replay=$f"
   FOUND=1
 done
+# a libFuzzer timeout / oom / leak report is a resource verdict, not an oracle verdict: inconclusive
+for f in $(find "$ART" -type f \( -name 'timeout-*' -o -name 'oom-*' -o -name 'leak-*' \) -newer "$STAMP" 2>/dev/null); do
+  echo "INCONCLUSIVE property=C15: libFuzzer resource report $f"
+  SLOW=1
+done
 rm -f "$STAMP"; rm -rf /dev/shm/rv-fuzz-sse-* 2>/dev/null
 if [ "$FOUND" = 1 ]; then exit 1; fi
+if [ "$SLOW" = 1 ]; then exit 2; fi
 if [ "$RC" != 0 ]; then echo "INCONCLUSIVE property=C15: libFuzzer exited $RC without an artifact (see $TDIR.run.log)"; exit 2; fi
 exit 0
